@@ -103,7 +103,7 @@ def _gen_ovni_h(dst, evbuf=None):
 
 WRAPS = ["open", "write", "close", "mkdir", "stat", "fopen", "remove", "rmdir",
          "opendir", "readdir", "closedir", "clock_gettime", "getenv", "abort",
-         "rename", "unlink", "fsync", "fdatasync"]
+         "rename", "unlink", "fsync", "fdatasync", "fcntl"]
 
 SMALL_EVBUF = 4096
 
